@@ -2,7 +2,7 @@
    get_gates / is_buffered_transition / the tests and updates of _rotamers are regenerated from
    enspara/geometry/rotamer.py on every run (Gen/RotamerGen.v); the specification is Model/Rotamer.v. *)
 From Coq Require Import List ZArith QArith Sorted.
-From EV Require Import RotamerBase RotamerGen Rotamer RotamerProofs TransitionsMore.
+From EV Require Import RotamerBase RotamerGen Rotamer RotamerProofs TransitionsMore RotamerPointwise.
 From EV Require Import DisorderBase DisorderGen DisorderGenProofs.
 Import ListNotations.
 
@@ -89,6 +89,20 @@ Theorem c20_nothing_reported_iff_constant : forall row d,
   transitions row = [] <-> forall i j, (i < length row)%nat -> (j < length row)%nat -> nth i row d = nth j row d.
 Proof. exact transitions_nil_iff_constant. Qed.
 Print Assumptions c20_nothing_reported_iff_constant.
+
+(* ---- the property statement read frame by frame, on the translated code: the first frame gets
+   the basin containing its angle; afterwards the state changes only when the angle leaves the
+   current basin widened by the buffer (wrap-around included), and then becomes the basin of the
+   new angle *)
+Theorem c20_rotamers_frame_by_frame : forall hb n bmax b angles sts d dq,
+  lib_set hb n bmax -> buffer_ok bmax b -> angles_ok hb n b angles ->
+  gen_rotamers angles hb b = Some sts ->
+  nth 0 sts d = basin hb (nth 0 angles dq) /\
+  forall t, (S t < length angles)%nat ->
+    nth (S t) sts d = if in_widened hb b (nth t sts d) (nth (S t) angles dq)
+                      then nth t sts d else basin hb (nth (S t) angles dq).
+Proof. exact rotamers_frame_by_frame. Qed.
+Print Assumptions c20_rotamers_frame_by_frame.
 
 Example c20_example :
   gen_rotamers [10#1; 300#1; 100#1; 200#1] hb_phi (100#1) = Some [0; 0; 0; 0]%Z /\
